@@ -191,6 +191,7 @@ def run_C18_full(ctx, K):
     # always nodes whose own function fails (sentinels): the error path and the end-of-pass re-queue meet in the heap (implementation only)
     K.run_tool(ctx, b, ["-prop", "sentinelfaults", "-claim", "C18", "-include", "C03,C05", "-n", str(tier_n(ctx, 600, 6000)),
                         "-seed", str(ctx.seed)], "engine-sentinelfaults")
+    run_par_stream(ctx, K, b, "sentinelfaults", 4, tier_n(ctx, 400, 4000), "par4_sentinelfaults", False, claim="C18", include="C03,C05", online=True)
 
 
 def run_C05_edgeindex(ctx, K):
@@ -335,6 +336,7 @@ PLANS_C16 = {"C16": dict(run=run_C16,
 # ------------------------------------------------------------------ C14, C15 (foldclock-builder), C17 (mapi-builder)
 
 def run_C14(ctx, K):
+    run_C05_edgeindex(ctx, K)  # aggregates are the typical wide nodes: their input lists sit on the >64-entry edge index
     b = K.go_build(ctx, "foldtrace")
     if not b:
         return
@@ -348,6 +350,7 @@ def run_C14(ctx, K):
 
 
 def run_C15(ctx, K):
+    run_parscen(ctx, K)  # time-driven nodes inside the engine: woken in a block with a failing bind, both stabilizers
     b = K.go_build(ctx, "clocktrace")
     if not b:
         return
